@@ -120,7 +120,10 @@ class Ctx:
         if named:
             for k in range(nsol): self.template.definesolute(crys.Nchem + k, 'X%d' % k)
         t = self.template
-        self.nsites, self.nchem = t.N * t.size, t.Nchem
+        # declared by the caller, not read back from the object: Nchem = native species + solutes, N*|det S| sites
+        self.nsites, self.nchem = crys.N * abs(int(round(np.linalg.det(S)))), crys.Nchem + nsol
+        self.declared_ok = (t.Nchem == self.nchem and len(t.occ) == self.nsites and len(t.chemorder) == self.nchem
+                            and len(t.chemistry) == self.nchem + 1)
         self.pos = np.array(t.pos)
         self.N = crys.N
         self.G = sorted(t.G, key=lambda g: tuple(g.indexmap[0]))
@@ -404,6 +407,8 @@ def exec_event(P, ctx, slots, ev):
 def run_history(P, ctx, events, nslots, full_every=True):
     """Executes the recorded events; stops at the first failure. -> index of the failing event or None"""
     slots = [ctx.fresh() for _ in range(nslots)]
+    P.check(ctx.declared_ok, 'C28:declared-sizes', lambda: 'Nchem=%s, %d sites, %d species lists; declared %d species on %d sites' % (
+        ctx.template.Nchem, len(ctx.template.occ), len(ctx.template.chemorder), ctx.nchem, ctx.nsites))
     check_all(P, ctx, slots, 'start')
     if P.first is not None: return -1
     last = len(events) - 1
